@@ -166,7 +166,7 @@ class Ctx:
                   'VERIF_SEED': str(self.seed), 'VERIF_TIER': self.tier, 'VERIF_PROP': self.pid})
         e.pop('GOSUMDB', None)
         e.update(env or {})
-        cmd = ['go', 'test', '-overlay', ov, '-tags', tags, '-run', '^%s$' % run, '-count=1',
+        cmd = ['go', 'test', '-overlay', ov, '-tags', tags, '-run', '^%s$' % run, '-count=1', '-vet=off',
                '-timeout', '%ds' % timeout, '.']
         t = time.time()
         p = subprocess.run(['timeout', str(timeout + 120)] + cmd, cwd=os.path.join(REPO, pkg),
